@@ -66,8 +66,7 @@ func main() {
 }
 
 func run(id, tier, only string) int {
-	fn, ok := checks.Registry[id]
-	if !ok {
+	if _, ok := checks.Registry[id]; !ok {
 		fmt.Fprintf(os.Stderr, "no check registered for %s\n", id)
 		return 2
 	}
@@ -78,7 +77,7 @@ func run(id, tier, only string) int {
 				c.Undecided("analyser-panic", id, fmt.Sprintf("%v\n%s", r, debug.Stack()))
 			}
 		}()
-		fn(c)
+		checks.Run(id, c)
 	}()
 	if only != "" {
 		c.NoEvid = true
